@@ -118,6 +118,9 @@ def step (ws : List String) (_impl : String) : Ans :=
           { m := showDecoded r,
             s := if bs.length - 2 > maxMessageSize + 3 then "=" else s!"ok {showPacket (normal p)} rest=0" }
       | none => bad
+  -- concurrent encodes (one goroutine per publisher): the encoder has no shared state a writer could
+  -- observe, every frame is the sequential encoding of its packet
+  | ["conc", _, _, _] => { m := "ok" }
   | _ => bad
 
 end Driver.C16
